@@ -127,7 +127,7 @@ int main(int argc, char** argv) {
             else { long y = rng() % 100; o.kind = y < 30 ? "get" : y < 55 ? "put" : y < 70 ? "uput" : "rem"; o.k = k; o.uniq = o.kind == "uput"; }
             o.t = (int)t + 1; prog[t].push_back(o); } }
         // directed templates (every other scenario of the non-DDL families): patterns that random programs rarely produce
-        if (fam != "ddl" && fam != "pair" && fam != "chain" && nth >= 2 && (sc % 2 == 1 || directed) && !scn.init.empty()) {
+        if (fam != "ddl" && fam != "pair" && fam != "chain" && nth >= 2 && (sc % 2 == 1 || directed == 1) && directed != 2 && !scn.init.empty()) {
             auto rd = [&](std::size_t n) { return (std::size_t)(rng() % n); };
             std::vector<std::string> sorted_init = scn.init; std::sort(sorted_init.begin(), sorted_init.end());
             std::string x = scn.uni[rd(scn.uni.size())]; if (std::find(scn.init.begin(), scn.init.end(), x) == scn.init.end()) x = sorted_init[rd(sorted_init.size())];
@@ -159,6 +159,19 @@ int main(int argc, char** argv) {
             else { prog[1].push_back(mk("put", x)); prog[1].push_back(mk("rem", x)); }                           // update then remove
             for (long t = 2; t < nth; t++) { prog[t].push_back(mk(rd(2) ? "put" : "rem", rd(2) ? x : y)); }
             for (long t = 0; t < nth; t++) for (auto& o : prog[t]) o.t = (int)t + 1;
+        }
+        // directed=2: lookups of the greatest key of a leaf (last rank) while other keys of the same leaf are removed / re-inserted
+        if (directed == 2 && fam != "ddl" && nth >= 2 && scn.init.size() >= 2) {
+            std::vector<std::string> si = scn.init; std::sort(si.begin(), si.end());
+            std::size_t li = (fam == "border" || si.size() <= 15) ? si.size() - 1 : (rng() % 2 ? si.size() - 1 : 7);   // greatest key of the leaf (full: single leaf; two: left leaf holds ranks 0..7 after an ascending split)
+            std::string L = si[li]; std::string o1 = si[li > 0 ? rng() % li : 0], o2 = si[li > 0 ? rng() % li : 0];
+            auto mk = [&](const char* kind, const std::string& k) { Op o; o.kind = kind; o.k = k; return o; };
+            for (auto& v : prog) v.clear();
+            prog[0].push_back(mk("get", L)); if (rng() % 2) prog[0].push_back(mk(rng() % 2 ? "put" : "get", L));
+            prog[1].push_back(mk("rem", o1)); prog[1].push_back(mk(rng() % 2 ? "rem" : "put", rng() % 2 ? o1 : o2));
+            for (long t = 2; t < nth; t++) prog[t].push_back(mk("rem", o2));
+            for (long t = 0; t < nth; t++) for (auto& o : prog[t]) o.t = (int)t + 1;
+            for (auto& k : {L, o1, o2}) if (std::find(scn.uni.begin(), scn.uni.end(), k) == scn.uni.end()) scn.uni.push_back(k);
         }
         // schedules for this scenario
         long nsched = runs; std::vector<std::vector<std::pair<int, long>>> plans;
